@@ -1051,6 +1051,12 @@ fn script_session(rng: &mut Rng, tier: Tier, f: &mut dyn FnMut(&str) -> String) 
             last = e.map(|k| sc.hist[k].bytes.clone());
         }
         sent[c] += n + 1;
+        // the payload limit does not depend on how many bytes the sequence number takes by now
+        for len in [1300usize, 1301] {
+            if sc.opd(&format!("cli-pay {} {}", cls[c].h, hex(&rng.payload(len)))).1.is_some() {
+                sent[c] += 1;
+            }
+        }
         if let (Some(early), Some(last)) = (early, last) {
             sc.op(&format!("srv-rx 0 {} {}", cls[c].addr, hex(&last)));
             // sequence of `early` is 2 (request, response came first), of `last` 2 + n
@@ -2804,7 +2810,7 @@ fn script_wire(rng: &mut Rng, tier: Tier, f: &mut dyn FnMut(&str) -> String) {
 // profile 0: nc-regress — one fixed op list per repaired defect (deterministic, run on every check)
 // =============================================================================================
 
-const REGRESS_CASES: usize = 39;
+const REGRESS_CASES: usize = 41;
 
 fn regress_script(case: usize, f: &mut dyn FnMut(&str) -> String) {
     let mut rng = Rng::new(0xD1CE + case as u64);
@@ -4083,6 +4089,77 @@ fn regress_script(case: usize, f: &mut dyn FnMut(&str) -> String) {
             sc.op("cli-q 5");
             sc.op("nc-quiet 0");
         }
+        // tokens that expire (second 8) long before their 60 s timeout; two clients complete the handshake at second 5; the
+        // control gets one payload through at once, everything the other one sends is lost until the server's clock says 9;
+        // then its genuine payloads arrive for the first time: they are surfaced (as are the control's)
+        39 => {
+            let mut two: Vec<Cl> = vec![];
+            for j in 0..2u64 {
+                let mut spec = base_spec(rng, 64 + j, proto, key, 5, &hosts);
+                spec.expire = 8;
+                spec.seal_expire = 8;
+                spec.timeout = 60;
+                if let Some(c) = new_client(&mut sc, 5 + j, &a4(10, 9, 6, j as u8, 4960 + j as u16), &spec, 5_000_000) {
+                    two.push(c);
+                }
+            }
+            if two.len() == 2 && fast_connect(&mut sc, &two[0]) && fast_connect(&mut sc, &two[1]) {
+                let (late, control) = (&two[0], &two[1]);
+                if let (_, Some(k)) = sc.opd(&format!("cli-pay {} 6561726c79", control.h)) {
+                    let d = sc.hist[k].bytes.clone();
+                    sc.op("note expect-payload");
+                    sc.op(&format!("srv-rx 0 {} {}", control.addr, hex(&d)));
+                }
+                // lost on the way
+                let mut lost: Vec<Vec<u8>> = vec![];
+                for dt in [250_000u64, 250_000] {
+                    if let (_, Some(k)) = sc.opd(&format!("cli-upd {} {}", late.h, dt)) {
+                        lost.push(sc.hist[k].bytes.clone());
+                    }
+                }
+                sc.op("srv-upd 0 4000000");
+                sc.op("srv-dump 0");
+                for c in [late, control] {
+                    sc.op(&format!("cli-upd {} 3500000", c.h));
+                    for p in ["6c617465", "6c6174657232"] {
+                        if let (_, Some(k)) = sc.opd(&format!("cli-pay {} {}", c.h, p)) {
+                            let d = sc.hist[k].bytes.clone();
+                            sc.op("note expect-payload");
+                            sc.op(&format!("srv-rx 0 {} {}", c.addr, hex(&d)));
+                        }
+                    }
+                    sc.op(&format!("srv-q 0 {}", c.tok.spec.id));
+                }
+                // the delayed keep-alives arrive after all (in the window, first time)
+                for d in lost.iter() {
+                    sc.op(&format!("srv-rx 0 {} {}", late.addr, hex(d)));
+                }
+                sc.op("srv-dump 0");
+            }
+        }
+        // payload limit when the session's sequence numbers need two bytes: 1299 / 1300 bytes go out, 1301 do not —
+        // on both sides
+        40 => {
+            fast_connect(&mut sc, &cls[0]);
+            for _ in 0..256 {
+                sc.op("cli-pay 0 2a");
+                sc.op("srv-pay 0 40 2b");
+            }
+            for n in [1299usize, 1300, 1301] {
+                let body = hex(&rng.payload(n));
+                if let (_, Some(k)) = sc.opd(&format!("cli-pay 0 {}", body)) {
+                    let d = sc.hist[k].bytes.clone();
+                    sc.op("note expect-payload");
+                    sc.op(&format!("srv-rx 0 {} {}", cls[0].addr, hex(&d)));
+                }
+                if let (_, Some(k)) = sc.opd(&format!("srv-pay 0 40 {}", body)) {
+                    let d = sc.hist[k].bytes.clone();
+                    sc.op("note expect-payload");
+                    sc.op(&format!("cli-rx 0 {}", hex(&d)));
+                }
+            }
+            sc.op("cli-dump 0");
+        }
         // sequence 2^64-1 (the window's EMPTY sentinel) from the owner of a session
         _ => {
             fast_connect(&mut sc, &cls[0]);
@@ -4635,6 +4712,68 @@ fn pending_full_ops(case: usize) -> Vec<String> {
 }
 
 // =============================================================================================
+// profile nc-entry-cursor (C19 / C05, one fixed case): token T1 is used from A; A repeats its request 2047 times (every
+// one answered, none of them a new token); a fresh token T2 arrives from C; T1 replayed from B != A gets nothing — the
+// address binding of T1 is still in the 2048-entry table
+// =============================================================================================
+
+fn entry_cursor_script(_case: usize, f: &mut dyn FnMut(&str) -> String) {
+    let mut rng = Rng::new(0xC19);
+    let rng = &mut rng;
+    let mut sc = Sc::new(f);
+    let key = k32(rng);
+    let ckey = k32(rng);
+    let proto = 7u64;
+    sc.op(&format!("srv-new 0 5000000 4 {} 1 {} {} {}", proto, hex(&key), hex(&ckey), SRV_A));
+    let addr = [a4(10, 13, 0, 1, 4131), a4(10, 13, 0, 2, 4132), a4(10, 13, 0, 3, 4133)];
+    let mut cls: Vec<Cl> = vec![];
+    for i in 0..2u64 {
+        let mut spec = base_spec(rng, 8200 + i, proto, key, 5, SRV_A);
+        spec.expire = 605;
+        spec.seal_expire = 605;
+        spec.timeout = 5;
+        if let Some(c) = new_client(&mut sc, i, &addr[i as usize * 2], &spec, 5_000_000) {
+            cls.push(c);
+        }
+    }
+    sc.op("note setup-done");
+    if cls.len() < 2 {
+        return;
+    }
+    let (req1, req2) = match (sc.opd("cli-upd 0 0").1, sc.opd("cli-upd 1 0").1) {
+        (Some(a), Some(b)) => (hex(&sc.hist[a].bytes), hex(&sc.hist[b].bytes)),
+        _ => return,
+    };
+    let mut chal: Option<Vec<u8>> = None;
+    for n in 0..2048 {
+        if let (_, Some(k)) = sc.opd(&format!("srv-rx 0 {} {}", addr[0], req1)) {
+            chal = Some(sc.hist[k].bytes.clone());
+        }
+        if n % 512 == 0 {
+            sc.op("srv-upd 0 1000");
+        }
+    }
+    // a fresh token from somewhere else
+    sc.op(&format!("srv-rx 0 {} {}", addr[2], req2));
+    // the first token from a third address: bound to A
+    sc.op(&format!("srv-rx 0 {} {}", addr[1], req1));
+    sc.op("srv-dump 0");
+    // its owner goes on
+    if let (_, Some(k)) = sc.opd(&format!("srv-rx 0 {} {}", addr[0], req1)) {
+        chal = Some(sc.hist[k].bytes.clone());
+    }
+    if let Some(ch) = chal {
+        answer_challenge(&mut sc, 0, &addr[0], &ch, Some("expect-connected"));
+    }
+    sc.op(&format!("srv-rx 0 {} {}", addr[1], req1));
+    sc.op("srv-q 0 8200");
+}
+
+fn entry_cursor_ops(case: usize) -> Vec<String> {
+    fixed_ops(case, entry_cursor_script)
+}
+
+// =============================================================================================
 // profile nc-seq-wrap (C17, one fixed heavy case): many thousands of handshake replies to one peer between the
 // handshake replies to another, all inside one connection attempt of the latter: 8192 and 8193 replies apart (a reply
 // counter kept in a window of 8191 / 8192 / 8193 values would hand A the same sequence number twice under its key).
@@ -4817,7 +4956,7 @@ pub fn profiles() -> Vec<Profile> {
         },
         Profile {
             name: "nc-regress",
-            props: &["C07", "C17", "C05", "C10", "C18", "C16", "C19", "C04", "C20"],
+            props: &["C07", "C17", "C05", "C10", "C18", "C16", "C19", "C04", "C20", "C13"],
             cases: |_| REGRESS_CASES,
             new_world,
             script: |_, _, _| {},
@@ -4885,6 +5024,16 @@ pub fn profiles() -> Vec<Profile> {
             nontrivial: |_| true,
             keep: |ops| ops.len(),
             fixed: Some(pending_full_ops),
+        },
+        Profile {
+            name: "nc-entry-cursor",
+            props: &["C19", "C05"],
+            cases: |_| 1,
+            new_world,
+            script: |_, _, _| {},
+            nontrivial: |_| true,
+            keep: |ops| ops.len(),
+            fixed: Some(entry_cursor_ops),
         },
         Profile {
             name: "nc-seq-wrap",
@@ -5278,6 +5427,47 @@ fn oracle_size(ops: &[String], outs: &[String]) -> Option<OracleFail> {
         }
         None
     })
+}
+
+/// C13 (netcode side of the size contract): a payload the message layer may hand over (at most NETCODE_MAX_PAYLOAD_BYTES =
+/// 1300 bytes) is turned into a datagram on a connected session whatever the sequence number's width, a longer one is
+/// refused with PayloadAboveLimit — for `generate_payload_packet` of client (`cli-pay`) and server (`srv-pay`); outputs
+/// that say the endpoint is not connected / does not know the client are not judged. At the wire level (`nc-enc … pay`):
+/// a payload of at most 1300 bytes encodes whenever the buffer has room for prefix + sequence + body + MAC.
+fn oracle_payload_limit(ops: &[String], outs: &[String]) -> Option<OracleFail> {
+    for i in 0..ops.len().min(outs.len()) {
+        let t = toks(&ops[i]);
+        let o = &outs[i];
+        if o == "panic" || o == "dead" || o == "bad-op" || t.is_empty() {
+            continue;
+        }
+        let (side, body) = match t[0] {
+            "cli-pay" if t.len() == 3 => ("client", t[2]),
+            "srv-pay" if t.len() == 4 => ("server", t[3]),
+            "nc-enc" if t.len() == 7 && t[5] == "pay" => {
+                // nc-enc <cap> <proto> <seq> <key> pay <hex>
+                if let (Some(cap), Some(seq), Some(len)) = (p_u64(t[1]), p_u64(t[3]), p_hex(t[6]).map(|b| b.len())) {
+                    let need = 1 + seq_bytes_required(seq) + len + 16;
+                    if len <= 1300 && cap as usize >= need && !o.starts_with("ok ") {
+                        return fail(i, "payload-limit-wrong:wire", format!("a payload packet of {} bytes at sequence {} (needs {} of {} buffer bytes) was not encoded: `{}`", len, seq, need, cap, trunc_s(o, 40)));
+                    }
+                }
+                continue;
+            }
+            _ => continue,
+        };
+        let Some(len) = p_hex(body).map(|b| b.len()) else { continue };
+        if o == "err:ClientNotConnected" || o == "err:ClientNotFound" || o.starts_with("err:Disconnected") {
+            continue;
+        }
+        if len <= 1300 && !o.starts_with("send ") {
+            return fail(i, &format!("payload-limit-wrong:{}", side), format!("generate_payload_packet of {} bytes on the {} side answered `{}`", len, side, trunc_s(o, 40)));
+        }
+        if len > 1300 && o != "err:PayloadAboveLimit" {
+            return fail(i, &format!("payload-limit-wrong:{}", side), format!("generate_payload_packet of {} bytes (> 1300) on the {} side answered `{}`", len, side, trunc_s(o, 40)));
+        }
+    }
+    None
 }
 
 // ----- C19: replies never amplify ----------------------------------------------------------------
@@ -6909,6 +7099,7 @@ pub fn oracles() -> Vec<Oracle> {
         Oracle { prop: "C07", name: "nc-no-unwind", engines: NC_ALL, check: oracle_no_panic },
         Oracle { prop: "C07", name: "nc-unauthentic-noop", engines: &["nc-session", "nc-hostile", "nc-attacker", "nc-regress"], check: oracle_hostile_noop },
         Oracle { prop: "C13", name: "nc-datagram-size", engines: NC_ALL, check: oracle_size },
+        Oracle { prop: "C13", name: "nc-payload-limit", engines: NC_ALL, check: oracle_payload_limit },
         Oracle { prop: "C19", name: "nc-no-amplification", engines: NC_ALL, check: oracle_amplification },
         Oracle { prop: "C10", name: "nc-connection-table", engines: &["nc-handshake", "nc-attacker", "nc-session", "nc-hostile", "nc-regress", "nc-pending-full"], check: oracle_table },
         Oracle { prop: "C05", name: "nc-connect-justified", engines: &["nc-handshake", "nc-attacker", "nc-session", "nc-hostile", "nc-regress", "nc-table-full"], check: oracle_connect_justified },
@@ -6925,8 +7116,8 @@ pub fn oracles() -> Vec<Oracle> {
         Oracle { prop: "C18", name: "nc-lossless-phase-connects", engines: &["nc-failover", "nc-regress"], check: oracle_expect_up },
         Oracle { prop: "C18", name: "nc-failover-patient", engines: &["nc-failover", "nc-handshake", "nc-regress", "nc-session", "nc-wire"], check: oracle_failover_patient },
         Oracle { prop: "C18", name: "nc-failover-tries-all", engines: &["nc-failover", "nc-handshake", "nc-regress"], check: oracle_failover_tries_all },
-        Oracle { prop: "C19", name: "nc-silent-to-invalid", engines: &["nc-handshake", "nc-attacker", "nc-hostile", "nc-session", "nc-regress", "nc-failover", "nc-known", "nc-pending-full"], check: oracle_silent_to_invalid },
-        Oracle { prop: "C05", name: "nc-silent-to-invalid", engines: &["nc-handshake", "nc-attacker", "nc-regress", "nc-table-full"], check: oracle_silent_to_invalid },
+        Oracle { prop: "C19", name: "nc-silent-to-invalid", engines: &["nc-handshake", "nc-attacker", "nc-hostile", "nc-session", "nc-regress", "nc-failover", "nc-known", "nc-pending-full", "nc-entry-cursor"], check: oracle_silent_to_invalid },
+        Oracle { prop: "C05", name: "nc-silent-to-invalid", engines: &["nc-handshake", "nc-attacker", "nc-regress", "nc-table-full", "nc-entry-cursor"], check: oracle_silent_to_invalid },
         Oracle { prop: "C18", name: "nc-timeout-not-postponed", engines: &["nc-handshake", "nc-session", "nc-regress", "nc-failover"], check: oracle_timeout_not_postponed },
         Oracle { prop: "C18", name: "nc-timeouts-exact", engines: &["nc-handshake", "nc-session", "nc-hostile", "nc-regress", "nc-failover"], check: oracle_timeouts },
     ]
